@@ -23,9 +23,15 @@ const (
 	fpForLeadEmpty = "for:leading-empty-value"
 )
 
-type abstain struct{ why string }
+type abstain struct {
+	why string
+	big bool // the evaluation outgrew what is modelled: the real helpers are not run either
+}
 
-func giveUp(why string) { panic(abstain{why}) }
+func giveUp(why string) { panic(abstain{why: why}) }
+func tooBig(why string) { panic(abstain{why: why, big: true}) }
+
+const maxValue = 1 << 20 // bytes of any intermediate value
 
 type env struct {
 	top   func(i int) string // top-level context matches
@@ -48,7 +54,7 @@ func newRef() *refEval { return &refEval{flags: map[string]bool{}, helpers: map[
 func (r *refEval) tick(n int) {
 	r.steps += n
 	if r.steps > 400000 {
-		giveUp("reference budget")
+		tooBig("reference budget")
 	}
 }
 
@@ -92,7 +98,13 @@ func (r *refEval) product(slots [][]string, f func(v []string) []string) []strin
 	rec = func(i int) {
 		if i == len(slots) {
 			r.tick(1)
-			out = append(out, f(cur)...)
+			res := f(cur)
+			for _, x := range res {
+				if len(x) > maxValue {
+					tooBig("value larger than modelled")
+				}
+			}
+			out = append(out, res...)
 			return
 		}
 		for _, c := range slots[i] {
@@ -108,7 +120,7 @@ func (r *refEval) product(slots [][]string, f func(v []string) []string) []strin
 func (r *refEval) try(f func()) {
 	defer func() {
 		if p := recover(); p != nil {
-			if _, ok := p.(abstain); !ok {
+			if a, ok := p.(abstain); !ok || a.big {
 				panic(p)
 			}
 		}
@@ -235,7 +247,7 @@ func mustInt(s string) *big.Int {
 func smallInt(s string, bound int64) int64 {
 	v := mustInt(s)
 	if !v.IsInt64() || v.Int64() > bound || v.Int64() < -bound {
-		giveUp("integer out of the modelled range")
+		tooBig("integer out of the modelled range")
 	}
 	return v.Int64()
 }
@@ -792,7 +804,7 @@ func (r *refEval) call(n *Node, e *env) []string {
 			for i := start; (incr > 0 && i < stop) || (incr < 0 && i > stop); i += incr {
 				out = append(out, strconv.FormatInt(i, 10))
 				if len(out) > 3000 {
-					giveUp("@range longer than modelled")
+					tooBig("@range longer than modelled")
 				}
 			}
 			r.tick(len(out))
@@ -818,7 +830,7 @@ func (r *refEval) call(n *Node, e *env) []string {
 				}
 				out = append(out, val)
 				if len(out) > 3000 {
-					giveUp("@for longer than modelled")
+					tooBig("@for longer than modelled")
 				}
 				se2 := r.subEnv(e, 2, true)
 				se2.v[0], se2.v[1] = val, strconv.Itoa(idx)
@@ -904,6 +916,11 @@ func isSubList(r, c string) bool {
 
 // evalRef evaluates a template for one context. ok=false means abstained.
 func evalRef(parts []*Node, cx *CtxSpec) (cands []string, r *refEval, why string) {
+	cands, r, why, _ = evalRefBig(parts, cx)
+	return
+}
+
+func evalRefBig(parts []*Node, cx *CtxSpec) (cands []string, r *refEval, why string, big bool) {
 	r = newRef()
 	e := &env{
 		top: func(i int) string {
@@ -917,12 +934,12 @@ func evalRef(parts []*Node, cx *CtxSpec) (cands []string, r *refEval, why string
 	defer func() {
 		if p := recover(); p != nil {
 			if a, isA := p.(abstain); isA {
-				cands, why = nil, a.why
+				cands, why, big = nil, a.why, a.big
 				return
 			}
 			panic(p)
 		}
 	}()
 	cands = r.seq(parts, e)
-	return cands, r, ""
+	return cands, r, "", false
 }
